@@ -7,7 +7,7 @@ name = sys.argv[1]
 b = checks.build(name)
 tier = os.environ.get("TIER", "quick")
 for sp in sys.argv[2:]:
-    r = orch.run_space(b, sp, tier, as_bytes=int(os.environ.get("AS", "0")), hang_s=float(os.environ.get("HANG", "30")))
+    r = orch.run_space(b, sp, tier, as_bytes=int(os.environ.get("AS", "0")), hang_s=float(os.environ.get("HANG", "30")), args=os.environ.get("ARGS", "").split())
     sigs = {}
     for v in r.viol:
         sigs.setdefault(v['sig'], []).append(v)
